@@ -25,6 +25,7 @@ import (
 	"sort"
 	"strings"
 	"sync"
+	"sync/atomic"
 	"testing"
 	"time"
 
@@ -377,6 +378,16 @@ type vfHarness struct {
 	ring   Hashring
 	eps    []Endpoint
 	closed bool
+	// unknownLenEvery > 0: every n-th HTTP request is sent without a declared body length
+	// (ContentLength -1, as the server sees a Transfer-Encoding: chunked request).
+	unknownLenEvery int64
+	httpSeq         atomic.Int64
+}
+
+func (hz *vfHarness) lengthOf(req *http.Request) {
+	if hz.unknownLenEvery > 0 && hz.httpSeq.Add(1)%hz.unknownLenEvery == 0 {
+		req.ContentLength = -1
+	}
 }
 
 const (
@@ -641,6 +652,7 @@ func (hz *vfHarness) httpV1(ctx context.Context, tenant string, replicaHeader ui
 	if replicaHeader > 0 {
 		req.Header.Set(vfReplicaHeader, fmt.Sprint(replicaHeader))
 	}
+	hz.lengthOf(req)
 	rec := httptest.NewRecorder()
 	hz.h.receiveHTTP(rec, req)
 	return vfResult{status: rec.Code, body: rec.Body.String(), header: rec.Header()}
@@ -651,6 +663,7 @@ func (hz *vfHarness) httpV2(ctx context.Context, tenant string, body []byte) vfR
 	req.Header.Set(vfTenantHeader, tenant)
 	req.Header.Set("X-Prometheus-Remote-Write-Version", "2.0.0")
 	req.Header.Set("Content-Type", "application/x-protobuf;proto=io.prometheus.write.v2.Request")
+	hz.lengthOf(req)
 	rec := httptest.NewRecorder()
 	hz.h.receiveHTTP(rec, req)
 	return vfResult{status: rec.Code, body: rec.Body.String(), header: rec.Header()}
@@ -663,6 +676,7 @@ func (hz *vfHarness) httpOTLP(ctx context.Context, tenant string, replicaHeader 
 	if replicaHeader > 0 {
 		req.Header.Set(vfReplicaHeader, fmt.Sprint(replicaHeader))
 	}
+	hz.lengthOf(req)
 	rec := httptest.NewRecorder()
 	hz.h.receiveOTLPHTTP(rec, req)
 	return vfResult{status: rec.Code, body: rec.Body.String(), header: rec.Header()}
